@@ -378,11 +378,22 @@ pub fn generate_prefix_stmts(csi_methods: &CsiMethods) -> Vec<Stmt> {
         parse_js(&source_file, handler, &compiler)
     });
 
-    if let Ok(Program::Script(script)) = program_result {
+    if let Ok(Program::Script(mut script)) = program_result {
+        // the prologue is not part of the rewritten file's source: its positions (in "inline.js")
+        // must not end up in the file's source map as positions of the file itself
+        script.body.visit_mut_with(&mut SpanEraser {});
         return script.body;
     }
 
     Vec::new()
+}
+
+struct SpanEraser {}
+
+impl swc_ecma_visit::VisitMut for SpanEraser {
+    fn visit_mut_span(&mut self, span: &mut swc_common::Span) {
+        *span = swc_common::DUMMY_SP;
+    }
 }
 
 #[cfg(test)]
